@@ -338,6 +338,9 @@ class Real(Part):
         from vlib import convo
 
         transport, params = case
+        if ctx.extra.get("hangs", 0) >= 2:
+            ctx.count("skipped_after_hang_fuse")
+            return dict(labels=["skipped:fuse"], nontrivial=False, count=0)
         gw = self.gws[transport]
         from vlib.core import Watchdog
 
